@@ -132,6 +132,61 @@ theorem runQuery_sound {db : Db} (hdb : DbOK db) {sch : Sched} (hs : ValidSched 
       simp only [countRow, Int.natCast_zero, Int.zero_add] at hc
       exact_mod_cast hc
 
+/-- the same for each of the three kinds of sink: the csv/json printers write a plan's records as they arrive
+    exactly when its schema says `NoRetractions`, and then there is nothing to consolidate -/
+theorem runQueryMode_sound {db : Db} (hdb : DbOK db) {sch : Sched} (hs : ValidSched sch) (m : SinkMode) (opt : Bool) (q : JQuery)
+    (hq : q.ok = true) (rows : List VRow) (h : runQueryMode m sch opt q db = some rows) :
+    ∀ row, countRow row rows = countRow row (joinSem q db) := by
+  unfold runQueryMode at h
+  cases hp : planQ db q with
+  | none => simp [hp] at h
+  | some p =>
+    simp only [hp] at h
+    obtain ⟨pok, pbag⟩ := planQ_sound hdb q p hq hp
+    cases hd : denote sch db (if opt = true then optimize db p else p) [] with
+    | none => simp [hd] at h
+    | some rs =>
+      simp only [hd] at h
+      have ok' : (if opt = true then optimize db p else p).ok = true := by
+        split
+        · exact optimize_ok hdb p pok
+        · exact pok
+      have bag' : planBag db (if opt = true then optimize db p else p) [] = planBag db p [] := by
+        split
+        · exact optimize_planBag hdb p pok
+        · rfl
+      have hnet := denote_sound hdb hs _ [] rs ok' hd
+      have viaTree : consolidate [] rs = some rows → ∀ row, countRow row rows = countRow row (joinSem q db) := by
+        intro hc row
+        have hcc := consolidate_count rs [] rows hc row
+        rw [hnet row, bag', pbag, net_asRecs] at hcc
+        simp only [countRow, Int.natCast_zero, Int.zero_add] at hcc
+        exact_mod_cast hcc
+      unfold sink at h
+      cases m with
+      | table => exact viaTree h
+      | native => exact viaTree h
+      | eager =>
+        simp only at h
+        by_cases hnr : p.noRetr = true
+        · simp only [hnr, ↓reduceIte, Option.some.injEq] at h
+          subst h
+          -- the unoptimized plan computes the same relation and also runs retraction-free … but the records we hold
+          -- come from the plan that was run: its own flag is what matters
+          intro row
+          have hrun : NR rs := by
+            by_cases ho : opt = true
+            · -- the optimizer's rules keep the flag
+              simp only [ho, ↓reduceIte] at hd
+              exact denote_nr hs _ [] rs (optimize_noRetr db p hnr) hd
+            · simp only [ho, Bool.false_eq_true, ↓reduceIte] at hd
+              exact denote_nr hs _ [] rs hnr hd
+          have hc := raw_count rs hrun row
+          rw [hnet row, bag', pbag, net_asRecs] at hc
+          exact_mod_cast hc
+        · simp only [hnr, Bool.false_eq_true, ↓reduceIte] at h
+          exact viaTree h
+
 /-! ### schedulers -/
 theorem merge_left_nil {α : Type} : ∀ (a : List α), Merge a [] a
   | [] => Merge.nil
